@@ -1,3 +1,4 @@
+import OpacusLean.Generated.ZeroGrad
 import OpacusLean.Lemmas.EngineEffect
 /-! # C11 — no per-sample gradient is ever released twice; stale state never leaks
 
@@ -467,5 +468,18 @@ example :
     let c : Cfg := ⟨.std, true, false⟩
     let s := run c (init 1 1) [.signal true, .fwdBwd 2, .step]
     s.summed = some ⟨[0, 1], false⟩ ∧ (stepOp c s .modZeroGrad).1.summed = s.summed := by decide
+
+/-! ## The tie to the source: `zero_grad` of both DP optimizers, re-translated on every run (`Generated/ZeroGrad.lean`) -/
+
+/-- what `DPOptimizer.zero_grad` and `DPOptimizerFastGradientClipping.zero_grad` do to a parameter's
+`(grad_sample, summed_grad)` as written in the source is the engine model's `optZero` (per-sample gradients always dropped,
+the clipped sum kept exactly when the last step was skipped), and both hand on to the inner optimizer's `zero_grad` -/
+theorem generated_zero_grad_eq_model (s : St) :
+    ((optZero s).gs, (optZero s).summed) = Opacus.Generated.ZeroGrad.flat s.lastSkipped s.gs s.summed ∧
+    ((optZero s).gs, (optZero s).summed) = Opacus.Generated.ZeroGrad.ghost s.lastSkipped s.gs s.summed ∧
+    Opacus.Generated.ZeroGrad.flatCallsInner = true ∧ Opacus.Generated.ZeroGrad.ghostCallsInner = true := by
+  refine ⟨?_, ?_, by decide, by decide⟩
+  · cases h : s.lastSkipped <;> simp [optZero, Opacus.Generated.ZeroGrad.flat, h]
+  · cases h : s.lastSkipped <;> simp [optZero, Opacus.Generated.ZeroGrad.ghost, h]
 
 end Opacus.C11
